@@ -1,4 +1,4 @@
 SPECIFICATION Spec
-CONSTANTS MaxLen = 4 CopyOnCompute = "none"
+CONSTANTS MaxLen = 4 Classes <- QuickClasses CopyOnCompute = "none"
 PROPERTY MutateIsLocal
 CHECK_DEADLOCK FALSE
